@@ -176,14 +176,17 @@ def digitsVal : Bytes → Nat
 
 variable (T : BCD.Tables)
 
+/-- `if len(*encoded) != n { return error }`: a value whose digits do not fill exactly its field is refused -/
+def fitting (n : Nat) (b : Bytes) : Option Bytes := if b.length = n then some b else none
+
 def encDate : Option YMD → Option Bytes
   | none => some [0, 0, 0, 0]
-  | some d => BCD.encode T (fmt4 d.y ++ fmt2 d.m ++ fmt2 d.d)
+  | some d => (BCD.encode T (fmt4 d.y ++ fmt2 d.m ++ fmt2 d.d)).bind (fitting 4)
 
 /-- no zero special case: the zero time formats as 0001-01-01 00:00:00 -/
 def encDateTime : Option YMDHMS → Option Bytes
-  | none => BCD.encode T (fmt4 1 ++ fmt2 1 ++ fmt2 1 ++ fmt2 0 ++ fmt2 0 ++ fmt2 0)
-  | some d => BCD.encode T (fmt4 d.y ++ fmt2 d.mo ++ fmt2 d.d ++ fmt2 d.h ++ fmt2 d.mi ++ fmt2 d.s)
+  | none => (BCD.encode T (fmt4 1 ++ fmt2 1 ++ fmt2 1 ++ fmt2 0 ++ fmt2 0 ++ fmt2 0)).bind (fitting 7)
+  | some d => (BCD.encode T (fmt4 d.y ++ fmt2 d.mo ++ fmt2 d.d ++ fmt2 d.h ++ fmt2 d.mi ++ fmt2 d.s)).bind (fitting 7)
 
 /-- "060102" of the zero time is 010101 -/
 def encSysDate : Option YMD → Option Bytes
@@ -192,7 +195,7 @@ def encSysDate : Option YMD → Option Bytes
 
 def encSysTime (t : HMS) : Option Bytes := BCD.encode T (fmt2 t.h ++ fmt2 t.m ++ fmt2 t.s)
 
-def encHHmm (t : HM) : Option Bytes := BCD.encode T (fmt2i t.h ++ fmt2i t.m)
+def encHHmm (t : HM) : Option Bytes := (BCD.encode T (fmt2i t.h ++ fmt2i t.m)).bind (fitting 2)
 
 def encPIN (n : Nat) : Bytes := (le32 n).take 3
 
